@@ -60,8 +60,12 @@ def run(rep, tier, seed):
     n = 1200 if tier == "quick" else 30000
     docs = [b"\n ", b">4. \n>    ```"] + [gen_md.mixed(rng).encode("utf-8", "replace") for _ in range(n)]
     docs += [gen_md.mutate(rng, gen_md.structured(rng)) for _ in range(n // 4)]
+    corpus = gen_md.corpus_docs()
+    docs = docs[:2] + corpus + docs[2:]
     docs = [d.replace(b"\0", b" ") for d in docs]
-    cases = ["%d %d %s" % (16 if i < 2 else rng.choice(EXTS), -1 if i < 2 else rng.choice(FORMATS), d.hex() or "-") for i, d in enumerate(docs)]
+    nc = 2 + len(corpus)
+    cases = ["%d %d %s" % (16 if i < 2 else (16 | 8) if i < nc else rng.choice(EXTS),
+                           -1 if i < 2 else FORMATS[1 + i % 5] if i < nc else rng.choice(FORMATS), d.hex() or "-") for i, d in enumerate(docs)]
     out = common.run_lines_par(har, cases, timeout=1200)
     dumps, owner = [], []
     bad = []
